@@ -88,6 +88,14 @@ Theorem C07_open_once : forall s, oreach s ->
 Proof. exact open_once. Qed.
 Print Assumptions C07_open_once.
 
+(** ... and one File is openable through one fidRef only: the fidRef that borrows another's File (Txattrwalk)
+    is never given a mode, an opened flag or open flags, so Tlopen on it is refused before File.Open; all other
+    fidRef literals get a File just obtained from the backend; the only later writes of mode / opened /
+    openFlags / file are the attach root's mode and Tlopen's own (generated tables, re-checked on every run) *)
+Theorem C07_open_one_owner : open_owner_ok = true.
+Proof. exact open_owner. Qed.
+Print Assumptions C07_open_one_owner.
+
 (** the table is not vacuous and the hypotheses are satisfiable *)
 Example C07_table_nonvacuous : existsb (fun st => match s_kind st with KCall "UnlinkAt" _ (Some _) => true | _ => false end) sites = true.
 Proof. vm_compute. reflexivity. Qed.
